@@ -459,10 +459,18 @@ let c07 op a =
       show_de qd qs (de_message_untyped (max_type_table_len) (unhex h) (qd, qs) (zero, zero))
   | _ -> "(unknown-op " ^ op ^ ")"
 
+(* ---------- C01 / C08: the native corpus against the same oracles (the Rust type name is ignored here) ---------- *)
+let c01 op a =
+  match op, a with
+  | "c08.native", [_; e; ts; h] -> c02 "c02.decode" [e; ts; h]
+  | "c01.wf", [_; e; ts; vs; b] -> c03 "c03.wf" [e; ts; vs; b]
+  | _ -> "(unknown-op " ^ op ^ ")"
+
 let dispatch (op : string) (a : string list) : string =
   let base = if String.length op > 2 && String.sub op 0 2 = "m." then String.sub op 2 (String.length op - 2) else op in
   let prop = try String.sub base 0 (String.index base '.') with Not_found -> base in
   match prop with
+  | "c01" | "c08" -> c01 op a
   | "c02" -> c02 op a
   | "c03" | "c04" | "c10" -> c03 op a
   | "c05" -> c05 op a
